@@ -40,10 +40,15 @@ var _ = digest.SpecHashSlot // spec functions used by the contracts below
 // only after the index names the new location, and the new fields are written in the
 // database that held the old ones.
 
+//   lastHashName / lastHashRun  a log of GetCheckpointHash: the checkpoint name and the run id it is
+//            filed under, as the last successful lookup returned them
 //@ func GetCheckpointHash(cli, runIds) (cpName, runId, err)
 //@   trusted abstract bookkeeping store: reads the name index in database 0
-//@   modifies curDb
+//@   ghost var lastHashName string
+//@   ghost var lastHashRun string
+//@   modifies curDb, lastHashName, lastHashRun
 //@   ensures db0: err == nil ==> curDb == 0
+//@   ensures logged: err == nil ==> lastHashName == cpName && lastHashRun == runId
 
 //   rootReads / rootOff / rootRun  a log of GetCheckpoint: how often the live root checkpoint was
 //            looked up, and the offset and run id the last successful lookup returned
@@ -89,7 +94,7 @@ var _ = digest.SpecHashSlot // spec functions used by the contracts below
 //@   ghost var cpDb mathint = 0 - 2
 //@   ghost var phase mathint = 0
 //@   requires nonnil: outCli != nil
-//@   modifies curDb, cpDb, phase, replayFailed, rootReads, rootOff, rootRun
+//@   modifies curDb, cpDb, phase, replayFailed, rootReads, rootOff, rootRun, lastHashName, lastHashRun
 
 // Garbage collection of stale checkpoints: a deletion request is issued only for an entry that
 // is older than the limit and, when the newest entry must be kept, not for the newest one.
